@@ -28,5 +28,27 @@ Definition vr_constant (v : Z) : vrange := IV v v.
 Definition vr_bool : vrange := IV 0 1.
 Definition vr_bytes1 : vrange := IV 0 255.
 
+(* clamp(lo, hi) with both bounds given, and clamp(None, hi) *)
+Definition vr_clamp2 (r : vrange) (lo hi : Z) : vrange :=
+  match r with
+  | TOP => vr_iv (Z.max SIGNED_MIN lo) (Z.min UNSIGNED_MAX hi)
+  | BOT => BOT
+  | IV l h => vr_iv (Z.max l lo) (Z.min h hi)
+  end.
+Definition vr_clamp_hi (r : vrange) (hi : Z) : vrange :=
+  match r with
+  | TOP => vr_iv SIGNED_MIN (Z.min UNSIGNED_MAX hi)
+  | BOT => BOT
+  | IV l h => vr_iv l (Z.min h hi)
+  end.
+Definition vr_intersect (a b : vrange) : vrange :=
+  match a, b with
+  | TOP, _ => b
+  | _, TOP => a
+  | BOT, _ => BOT
+  | _, BOT => BOT
+  | IV l1 h1, IV l2 h2 => vr_iv (Z.max l1 l2) (Z.min h1 h2)
+  end.
+
 Definition unopt {A} (o : option A) : res A := match o with Some a => Ok a | None => Err TypeErr end.
 Definition is_none {A} (o : option A) : bool := match o with None => true | Some _ => false end.
